@@ -18,6 +18,8 @@ func init() {
 
 func runC08(c *Ctx) {
 	c08Globals(c, "C08")
+	c08GlobalEscape(c, "C08")
+	c07Fresh(c, "C08.fresh-results")
 	c08Tree(c, "C08")
 	c08FreshParser(c)
 	c08Ambient(c)
@@ -404,4 +406,100 @@ func c08MapOrder(c *Ctx) {
 		c.R.Add(rule, cons, c.P.InstrPos(ml.In), Violation, "the iteration order of a Go map reaches a result: "+strings.Join(sinks, "; "))
 	}
 	c.R.Floor(rule, 2)
+}
+
+// c08GlobalEscape: a package-level map, slice or pointer must not be installed in an object the API hands out
+// (stored into a field, a map entry or a slice element, or returned): every object sharing it would share state.
+func c08GlobalEscape(c *Ctx, prop string) {
+	rule := prop + ".no-global-alias"
+	rr := c.apiReach()
+	isRefType := func(t types.Type) bool {
+		switch t.Underlying().(type) {
+		case *types.Map, *types.Slice:
+			// containers: sharing one lets a write through one holder show up in all others. (Pointers to
+			// package-level descriptors - diagnostic messages, token tables - are shared by design and read-only.)
+			return true
+		}
+		return false
+	}
+	globalRoot := func(v ssa.Value) string {
+		if !isRefType(v.Type()) {
+			if mi, ok := v.(*ssa.MakeInterface); !ok || !isRefType(mi.X.Type()) {
+				return ""
+			}
+		}
+		for _, rt := range plainOrigins.Roots(v) {
+			if rt.Kind == "global" && len(rt.Path) == 0 {
+				if g, ok := rt.V.(*ssa.Global); ok && g.Pkg == c.P.Pkg {
+					return g.Name()
+				}
+			}
+		}
+		return ""
+	}
+	// fields whose map/slice is written through somewhere in API-reachable code: sharing a package-level object
+	// through a field nobody writes through is harmless (a read-only registry), through these it is shared state
+	writtenThrough := map[string]bool{}
+	for _, f := range rr.Order {
+		if isInitFn(f) {
+			continue
+		}
+		for _, e := range c.localEffects(f) {
+			tgt := e.Target
+			switch e.What {
+			case "mapupdate", "delete", "clear":
+			case "store":
+				ia, ok := tgt.(*ssa.IndexAddr)
+				if !ok {
+					continue
+				}
+				tgt = ia.X
+			default:
+				continue
+			}
+			for _, rt := range plainOrigins.Roots(tgt) {
+				for _, p := range rt.Path {
+					if p != "*" {
+						writtenThrough[p] = true
+					}
+				}
+			}
+		}
+	}
+	n := 0
+	for _, f := range rr.Order {
+		if isInitFn(f) {
+			continue
+		}
+		per := 0
+		instrs(f, func(b *ssa.BasicBlock, i int, in ssa.Instruction) {
+			var val ssa.Value
+			how := ""
+			switch x := in.(type) {
+			case *ssa.Store:
+				switch a := x.Addr.(type) {
+				case *ssa.FieldAddr:
+					if writtenThrough[fieldName(a)] {
+						val, how = x.Val, "stored into field "+fieldName(a)+", which is written through elsewhere"
+					} else {
+						n++
+					}
+				case *ssa.IndexAddr:
+					val, how = x.Val, "stored into a slice element"
+				}
+			case *ssa.MapUpdate:
+				val, how = x.Value, "stored into a map entry"
+			}
+			if val == nil {
+				return
+			}
+			n++
+			if g := globalRoot(val); g != "" {
+				per++
+				c.R.Add(rule, fmt.Sprintf("%s: alias#%d of %s", c.P.FuncKey(f), per, g), c.P.InstrPos(in), Violation, "the package-level "+g+" is "+how+": every object built this way shares that one map/slice/pointer, so a write through one (e.g. a `$` local, SetThisValue) is visible through all others and races between goroutines")
+			}
+		})
+	}
+	c.R.Add(rule, "stores-examined", "-", OK, "")
+	c.R.Analysed["heap_stores_examined_for_global_alias"] = n
 }
